@@ -47,7 +47,7 @@ class C18(Prop):
     assumptions = ['DeepSpeed/Megatron doubles; each pipeline stage is an independent stack with its own data (no inter-stage activations are needed for the property)',
                    'in directory mode the harness places a barrier between save and load (a checkpoint is read by a later job)']
     examples = {'quick': 45, 'thorough': 300}
-    shards = {'quick': 4, 'thorough': 16}
+    shards = {'quick': 8, 'thorough': 16}
     shrink_budget_s = {'quick': 30.0, 'thorough': 180.0}
     required_labels = {'quick': ['nontrivial=True', 'dir_mode=True', 'dir_mode=False', 'pipe=2', 'model=2'],
                        'thorough': ['nontrivial=True', 'dir_mode=True', 'dir_mode=False', 'pipe=2', 'model=2', 'data=3']}
